@@ -20,7 +20,7 @@ from .. import snutil as su
 from ..core import Check, Part, Result, must, safe_deepcopy
 
 OBSERVERS = ['export', 'export_nobn', 'summary', 'cost', 'get_cost', 'swap_spec', 'str']
-MUTATORS = ['forward', 'step', 'train', 'eval']
+MUTATORS = ['forward', 'step', 'train', 'eval', 'mixed_mode']
 ALPHABET = OBSERVERS + MUTATORS
 
 
@@ -148,6 +148,12 @@ def do_mutator(ad: Adapter, m, op, k):
         m.train()
     elif op == 'eval':
         m.eval()
+    elif op == 'mixed_mode':
+        # fine-tuning style: the model trains while every other leaf module is frozen in eval mode
+        m.train()
+        leaves = [mod for _, mod in m.named_modules() if not list(mod.children())]
+        for mod in leaves[1::2]:
+            mod.eval()
     elif op == 'step':
         params = [p for p in m.parameters() if p.requires_grad]
         opt = torch.optim.SGD(params, lr=1e-2)
@@ -365,7 +371,7 @@ CHECK = Check(
     parts=[
         Part('short-histories', oracle, enumerate=enum_short, enum_parallel=True,
              shards={'quick': 8, 'thorough': 16},
-             exhaustive_note='ALL sequences of length <= 2 (thorough: <= 3) over the 11-letter '
+             exhaustive_note='ALL sequences of length <= 2 (thorough: <= 3) over the 12-letter '
                              'alphabet containing at least one observer, on one fixed model per '
                              'method'),
         Part('pit', oracle, strategy=pit_cases(),
@@ -377,7 +383,7 @@ CHECK = Check(
     ],
     rule=("Histories of 1..8 calls over {export, export(add_bn=False), summary, str, cost (all "
           "names), get_cost(name)+gradient, set cost_specification and back} (observers) and "
-          "{forward, training step, train(), eval()} (mutators) on generated PIT / SuperNet / MPS "
+          "{forward, training step, train(), eval(), mixed per-module modes} (mutators) on generated PIT / SuperNet / MPS "
           "models with drawn masks / coefficients, full_cost on/off, dictionary cost specs. After "
           "every observer the snapshot of the model (eval output on a deep copy, every cost value, "
           "gradient of every cost w.r.t. the architectural parameters, summary, state_dict, "
